@@ -16,10 +16,10 @@ Traces
 
     * per predicate a state ``None`` (not executed, both distances absent) or
       ``(count, true_d, false_d)`` with ``count`` in {1, 2} (2 stands for ">= 2
-      evaluations") and distances in {0.0, 0.5, 1.0, 7.0, inf}, consistent with the
+      evaluations") and distances in {0.0, 5e-17, 0.5, 1.0, 7.0, inf}, consistent with the
       tracer's invariant (``ExecutionTracer._update_metrics``: exactly one distance is
       0.0 per evaluation; distances are minima over evaluations, so after one
-      evaluation exactly one is zero, after two both may be) -> 1 + 8 + 9 = 18 states;
+      evaluation exactly one is zero, after two both may be) -> 1 + 10 + 11 = 22 states;
     * every subset of executed code objects that contains the code object of every
       executed predicate;
     * every subset of covered lines x every subset of checked lines.
@@ -41,7 +41,7 @@ import contextlib
 import itertools
 
 INF = float("inf")
-NONZERO = (0.5, 1.0, 7.0, INF)
+NONZERO = (5e-17, 0.5, 1.0, 7.0, INF)   # 5e-17: a float comparison missed by a hair
 
 SOURCE = '''\
 def plain():
